@@ -188,22 +188,25 @@ def mean_point_rules(cx):
         ok = e is not None
         found = show(r)[:300]
         if ok:
-            dag = b.dag()
-            ls = [x for x in subterms(e['s']) if x[0] == 'loop']
-            cs = simplify(dag.carried(ls[0][1], ls[0][2])) if len(ls) == 1 else None
-            if weighted:
-                Z = '(itervar (call Iterator::zip (param points) (param weights)))'
-                ok = cs is not None and match(f'(mut Matrix::add_assign . (phi (call Matrix::zeros) (loop)) (call Matrix::mul (field coords (field 0 {Z})) (field 1 {Z})))', cs) is not None
-                lt = [x for x in subterms(e['t']) if x[0] == 'loop']
-                ct = simplify(dag.carried(lt[0][1], lt[0][2])) if len(lt) == 1 else None
-                ok = ok and match('(phi 0.0 (loop))', e['t']) is not None and ct is not None and match(f'(add (field 1 {Z}) (phi 0.0 (loop)))', ct) is not None
-                found = f'sum: {show(cs)[:200] if cs else None}; divisor: {show(e["t"])[:120]} carried {show(ct)[:160] if ct else None}'
-            else:
-                ok = cs is not None and match('(mut Matrix::add_assign . (phi (call Matrix::zeros) (loop)) (field coords (itervar (param points))))', cs) is not None and \
-                    match('(cast f64 (len (param points)))', e['t']) is not None
-                found = f'sum: {show(cs)[:200] if cs else None}; divisor: {show(e["t"])[:120]}'
-            okx, why = T.exhaustive_loops(cx, b)
-            ok = ok and okx
+            from vpa import comp as CMP
+            P = '(param points)'
+            I = f'(itervar (range 0 (len {P})))'
+            rs = CMP.reduction(cx, b, e['s'])        # accumulator loop (`sum += ..`) or fold alike
+            ok = rs is not None and rs['op'] == 'sum' and not rs['conds'] and rs['init'] is not None and match('(call Matrix::zeros)', rs['init']) is not None
+            el = CMP.canon2(rs['elem']) if rs is not None else None
+            found = f"sum: {rs['form']} elem={show(el)[:200]}" if rs is not None else show(e['s'])[:300]
+            if ok and weighted:
+                ok = match(f'(call Matrix::mul (field coords (index {P} {I})) (index (param weights) {I}))', el) is not None
+                rt = CMP.reduction(cx, b, e['t'])
+                et = CMP.canon2(rt['elem']) if rt is not None else None
+                ok = ok and rt is not None and rt['op'] == 'sum' and not rt['conds'] and rt['init'] == ('const', 0.0) and match(f'(index (param weights) {I})', et) is not None
+                found += f"; divisor: {show(et)[:120] if et is not None else show(e['t'])[:120]}"
+            elif ok:
+                ok = match(f'(field coords (index {P} {I}))', el) is not None and match(f'(cast f64 (len {P}))', e['t']) is not None
+                found += f"; divisor: {show(e['t'])[:120]}"
+            if ok and any(x is not None and x['form'] == 'loop' for x in (rs,)):
+                okx, why = T.exhaustive_loops(cx, b)
+                ok = ok and okx
         cx.ob('EXPR', short, ok, ('the weighted mean is (sum of p_i * w_i) / (sum of w_i), both sums over EVERY (point, weight) pair: scaling all weights by one factor leaves it unchanged'
                                    if weighted else 'the mean is (sum of p_i) / n over EVERY point'), where=b.file, found=found)
 
@@ -377,6 +380,14 @@ def run(cx):
     if b:
         st = [m for m in b.mutations() if m.kind == 'store']
         okv = any(match('(div (call f64::powi _ 2) (cast f64 (self n)))', simplify(b.dag().rvalue(m.data['rv'], m.bb, m.idx))) is not None for m in st)
+        if not st:
+            # the same element-wise formula written as self.sv.map(|s| s.powi(2) / n)
+            em = match('(call *::map (self sv) (closure * ...))', cx.retval(b))
+            if em is not None:
+                clo = [x for x in subterms(cx.retval(b)) if x[0] == 'closure']
+                _, cr = cx.closure_ret(clo[0]) if clo else (None, None)
+                okv = cr is not None and (match('(div (call f64::powi (param 2) 2) (cast f64 (field n (field * (param 1)))))', cr) is not None or
+                                          match('(div (call f64::powi (param 2) 2) (cast f64 (field n _)))', cr) is not None)
         cx.ob('EXPR', 'SvdBasis::basis_variances', okv, 'variance_i = sv_i^2 / n', where=b.file)
 
     # ---------------------------------------------------------------- Plane3
